@@ -2,13 +2,16 @@
 \* while an admitted mapping-id open is between the read and the write of
 \* conncode.RecordMappingUsage (read the record, set LastActive, write the whole record back).
 \* The stale write-back restores the pre-change record; the next request is validated against it.
-\* Must fail (AttachedEntitled); not run by the check:
+\* Must fail (AttachedEntitled).  Not part of the default check: the real code reproduces it
+\* (VERIF_C04_INFLIGHT=1 ./check C04 adds the order: Unentitled|Leak|NoFailureAck/inflightUsage:*
+\* on the unchanged tree - a lost update between two read-modify-write sequences on the mapping
+\* record; proposed known finding "*/inflightUsage:*", round-3 report):
 \*   tlc -config TunnelOpen_show_inflight.cfg TunnelOpen.tla
 CONSTANTS
   FIXES = {"validateJoin", "secretValidity", "bindMapping", "bindMappingPoll"}
   Idents = {"none", "noneHs", "listen", "target", "stranger"}
   Creds = {"idOnly", "rightSecret", "wrongSecret", "resume", "nothing", "otherId", "otherSecret"}
-  MStates = {"active", "revoked", "expired", "expiredJust", "inactive", "error", "suspended", "missing"}
+  MStates = {"active", "revoked", "expired", "expiredJust", "lapsed", "inactive", "error", "suspended", "missing"}
   Shapes = {"std"}
   MUT = {}
   TStates = {"waiting"}
